@@ -91,11 +91,36 @@ func c17FreeWorkload(spec RunSpec) c17Model {
 	return m
 }
 
+// c17FreeFatalWorkload: one worker fails while the others (which loop until cancelled) are stopped by the
+// fatal interrupt: the termination paths of several cores run at the same time.
+func c17FreeFatalWorkload(spec RunSpec) Program {
+	n := spec.P("n", 4)
+	var b strings.Builder
+	b.WriteString("let g = 0;\n")
+	b.WriteString("fn lp(id: int) { loop { g = g + 1; } }\n")
+	b.WriteString("fn sl(id: int) { loop { time.sleep(0.01); } }\n")
+	fmt.Fprintf(&b, "fn bad(id: int) { let c = 0; while c < %d { c = c + 1; } throw(\"boom\"); }\n", 50+spec.P("iters", 30)*10)
+	b.WriteString("fn main() {\n")
+	for i := 0; i < n; i++ {
+		if i%2 == 0 {
+			fmt.Fprintf(&b, "    spawn lp(%d);\n", i)
+		} else {
+			fmt.Fprintf(&b, "    spawn sl(%d);\n", i)
+		}
+	}
+	b.WriteString("    spawn bad(99);\n    loop { g = g + 1; }\n}\n")
+	return Single(b.String())
+}
+
 // runC17FreeHere executes one free-mode run in this process (the -race binary).
 func runC17FreeHere(t *testing.T, spec RunSpec) *Verdict {
 	const P = "C17"
 	v := &Verdict{}
 	m := c17FreeWorkload(spec)
+	fatal := spec.P("fatal", 0) == 1
+	if fatal {
+		m = c17Model{prog: c17FreeFatalWorkload(spec), lines: map[string]int{}}
+	}
 	prog, err := MustCompile(m.prog)
 	if err != nil {
 		v.fail(P, "infra", "", "", "free workload does not compile: "+err.Error())
@@ -115,6 +140,14 @@ func runC17FreeHere(t *testing.T, spec RunSpec) *Verdict {
 	})
 	if pmsg != "" && !strings.Contains(pmsg, "blocked goroutines remain") && !strings.Contains(pmsg, "deadlock") {
 		v.fail(P, "host-crash", "no-host-crash", "free:"+panicCategoryH(pmsg), "free-mode run panicked: "+pmsg)
+		return v
+	}
+	if fatal {
+		if got.Kind != "fatal:UncaughtThrow" {
+			v.fail(P, "wrong-result", "wait-result", "free-fatal:"+got.Kind, "free-mode run with a failing worker: Wait returned "+got.Kind+" "+firstLine(got.Msg))
+		}
+		// give the cancelled cores a moment to run their termination paths under the race detector
+		time.Sleep(30 * time.Millisecond)
 		return v
 	}
 	if got.Kind != "completed" {
